@@ -119,7 +119,7 @@ prop("C15",
 prop("C13",
      [r_si.rule_suffix_after_insert, r_si.rule_suffix_algo, r_si.rule_session_only, r_si.rule_unknown, r_si.rule_compare,
       r_si.rule_pk_state, r_wl.rule_orig_mnem, r_wl.rule_hdr_post, r_si.rule_list_primitives, r_si.rule_pk_rebuild,
-      r_si.rule_pk_list_restore, r_si.rule_read_pure],
+      r_si.rule_pk_list_restore, r_si.rule_read_pure, r_si.rule_accessors],
      "Pairing rule on CFG paths: in every SectionItems method each placement of an item through list.append/insert/"
      "__setitem__/extend is followed on every path to a normal return by assign_duplicate_suffixes, called "
      "unconditionally with the new item's useful_mnemonic; LASFile.set_data re-assigns all suffixes after renaming "
@@ -224,7 +224,7 @@ prop("C07",
      [r_data.rule_wrap_count, r_data.rule_tokenizer, r_sec.rule_line_normalise, r_data.rule_counter, r_data.rule_reshape,
       r_data.rule_split, r_sec.rule_reseek, r_sec.rule_end_test, r_si.rule_compare, r_sec.rule_content_only_effects,
       r_data.rule_orient, r_sec.rule_case, r_sec.rule_steer, r_data.rule_engine_select, r_hdrt.rule_every_line,
-      r_data.rule_null_table, r_data.rule_tokens_kept],
+      r_data.rule_null_table, r_data.rule_tokens_kept, r_num.rule_curve_raw, r_data.rule_subs_agree],
      "Column binding analysis: under the assumption WRAP == YES with declared curves, an explicit-state search of "
      "LASFile.read shows that the n_columns argument of the reference engine is never the per-line count sniffed by "
      "inspect_data_section, and all tests on the WRAP value fold to the same predicate over 9 probe values "
@@ -264,7 +264,7 @@ prop("C09",
      [r_data.rule_tokenizer, r_data.rule_trim, r_sec.rule_title_pred, r_sec.rule_end_test, r_sec.rule_line_normalise,
       r_sec.rule_reseek, r_data.rule_wrap_count, r_sec.rule_convention, r_data.rule_orient, r_sec.rule_content_only_effects,
       r_data.rule_read_subs, r_gr.rule_grammar, r_data.rule_engine_select, r_data.rule_tokens_kept, r_data.rule_split,
-      r_data.rule_subs_source],
+      r_data.rule_subs_source, r_data.rule_subs_agree],
      "Presentation-invariance clauses: the sniffer tokenises with the reader's DLM splitter (DATA.TOKENIZER); every "
      "splitter of the factory yields whitespace-free tokens - decided on the regex AST as a character set, or by strip() "
      "of each field - and comma splitting is positional (DATA.TRIM, DATA.SPLIT; COMMA and TAB trimming are recorded known "
@@ -325,7 +325,8 @@ prop("C03",
      [r_wl.rule_measure, r_wl.rule_order_key, r_wl.rule_orig_mnem, r_wl.rule_template, r_wl.rule_hdr_post,
       r_wl.rule_ord_bijection, r_wl.rule_key_norm, r_gr.rule_grammar, r_gr.rule_select, r_gr.rule_strip, r_wrf.rule_standardize,
       r_hdrt.rule_no_state, r_si.rule_pk_state, r_num.rule_finite_default, r_num.rule_curve_raw, r_hdrt.rule_steer_lookup,
-      r_si.rule_pk_rebuild, r_si.rule_pk_list_restore, r_wrf.rule_frame, r_sec.rule_other_verbatim, r_hdrt.rule_every_line],
+      r_si.rule_pk_rebuild, r_si.rule_pk_list_restore, r_wrf.rule_frame, r_sec.rule_other_verbatim, r_hdrt.rule_every_line,
+      r_wl.rule_ord_table],
      "Header write->read pairing clauses. Stage order per section in writer.write by CFG reachability: unit alignment / "
      "refresh -> normalisation by standardize_value -> width measurement -> formatting, no later stage followed by an "
      "earlier one (WR.MEASURE); every order lookup in the writer (5 call sites) is keyed by provenance by the item's "
@@ -391,7 +392,7 @@ def _to_csv_typestate(ctx):
 prop("C14",
      [r_lp.rule_views, r_lp.rule_route, r_lp.rule_rank, r_lp.rule_no_inplace, r_lp.rule_pu_fresh, r_si.rule_suffix_after_insert,
       r_si.rule_session_only, r_si.rule_compare, r_si.rule_accessors, r_lp.rule_no_alias_repeat, r_lp.rule_sentinel,
-      r_lp.rule_rename_reset, r_si.rule_read_pure, r_si.rule_suffix_algo],
+      r_lp.rule_rename_reset, r_si.rule_read_pure, r_si.rule_suffix_algo, r_si.rule_list_primitives],
      "List-model clauses: every view (keys, values, items, __getitem__, data, index, curvesdict, get_curve, df, "
      "stack_curves) reads curve state through self.curves only, and no LASFile attribute other than `sections` is ever "
      "assigned from curve data (attribute-store census with provenance; LF.VIEWS); the ten curve mutators change the list "
